@@ -303,12 +303,24 @@ func checkC14(e *Env) {
 			}
 		})
 
+	// a panic or process death that needs a history or concurrency: memo-hunting sequences and
+	// the concurrent flavour, both judged only for returning normally
+	histCalls := e.runHistories(drv, "C14", e.pick(24, 300), 4, func(ops []plan.Op, res []plan.Res) {
+		for i := range res {
+			if res[i].Panic != "" {
+				e.Violate(&Violation{What: fmt.Sprintf("%s panicked after earlier calls in the same process: %s", fnName(ops[i].Fn), oneLine(res[i].Panic, 300)), Ops: ops[:i+1], Expected: "returns normally", Observed: res[i], Detail: historyNote})
+				return
+			}
+		}
+	})
+	concCalls := e.concurrentSmoke(drv, "C14", append(e.smokePool("C14", "chk"), e.smokePool("C14", "str")...), e.pick(2, 12), e.pick(200, 1000), true)
 	if e.Violations() == 0 && stats.Ops < 1000 {
 		fatalInconclusive("C14: only %d calls completed", stats.Ops)
 	}
 	e.WriteEvidence("exploration", map[string]any{
-		"evaluations":                 stats.Ops,
-		"distinct_nontrivial":         dist.Len(),
+		"evaluations":         stats.Ops,
+		"distinct_nontrivial": dist.Len(),
+		"calls_inside_histories_and_under_concurrency": histCalls + concCalls,
 		"rule":                        "cases are calls of every exported function and method with hostile arguments: Language values {MinInt64, MinInt32, -2^31-1, -10, -1, 0..9, 10, 11, 255, 256, MaxInt32, 2^32, MaxInt64, seeded random} for every function; entropy nil, every length 0..70 and up to the size cap; word counts -40..60 and the extremes of int with default, working, failing, stuttering ((0,nil) x32) and short sources; strings: empty, spaces, one huge token, up to 10^6 tokens, 24 list words with long tails, every shape of invalid UTF-8, NUL, long runs of combining marks, U+FDFA, Hangul, unassigned code points and non-characters, and seeded splices, up to 1 MiB (thorough 16 MiB), each sent to CheckMnemonic, IsMnemonicValid and MnemonicToSeed (as mnemonic, as passphrase, as both); each call runs in a child that announces it first, so a panic, a process death or a call that consumes more than 10 s + 8 s/MiB of CPU is attributed to it; non-trivial = every call; distinct by (function, shape, language)",
 		"samples":                     smp.List(),
 		"calls_per_function":          perFn.Map(),
